@@ -39,7 +39,7 @@ def run(ctx):
     for be, kind in builds:
         exe = build.harness("h_gadget", be, kind)
         # 2a. embedded grids: equality with the model digit for digit
-        grids = [(2, 7, 15, 1), (3, 4, 13, 1), (3, 7, 22, 4 if thorough else 61), (2, 10, 21, 2 if thorough else 31)]
+        grids = [(2, 7, 15, 1), (3, 4, 13, 1), (3, 7, 22, 13 if thorough else 61), (2, 10, 21, 7 if thorough else 31)]
         if kind == "debug" and not thorough:
             grids = grids[:2]
         for (l, bg, W, stride) in grids:
